@@ -101,6 +101,8 @@ def directed_cases(tier):
         edits = [{"kind": "src_modify", "path": "src/gen/f0.txt", "content": "mod-%x\n" % rng.getrandbits(24), "same_size": False},
                  {"kind": "src_add", "path": "src/gen/n1.txt", "content": "new-%x\n" % rng.getrandbits(24)},
                  {"kind": "src_delete", "path": "src/gen/f1.txt"},
+                 {"kind": "tool_path", "recipe": "gen", "tool": "tool_gen", "path": "sub"},
+                 {"kind": "tool_libs", "recipe": "gen", "tool": "tool_gen", "libs": ["lib"]},
                  {"kind": "revert", "to": 1}]
         out.append({"model": model, "develop": k % 2 == 0 or k >= 2, "jobs0": 1, "seed0": rng.getrandbits(32),
                     "edits": [{"edit": e, "jobs": rng.choice([1, 2]), "sched_seed": rng.getrandbits(32), "repeat": i == 1}
